@@ -110,8 +110,18 @@ a("ceil", 9, lambda x: int(math.ceil(x)))
 a("floor", 9, lambda x: int(math.floor(x)))
 a("trunc", 9, int, 1)
 
-a("e", 11, lambda x, y: x * 10**y)
-a("E", 11, lambda x, y: x * 10**y)
+
+
+def _scientific(x, y):
+    if abs(y) > 308:
+        # beyond the float range MediaWiki computes in: do not build a huge integer
+        # (math.pow raises OverflowError or underflows to 0.0)
+        return x * math.pow(10, y)
+    return x * 10**y
+
+
+a("e", 11, _scientific)
+a("E", 11, _scientific)
 
 a("*", 8, lambda x, y: x * y)
 a("/", 8, lambda x, y: x / y)
